@@ -8,6 +8,8 @@
 #include <vector>
 #include <fstream>
 #include <sstream>
+#include <unistd.h>
+#include <sys/wait.h>
 
 static uint64_t rs_;
 static uint64_t rnd() { rs_ ^= rs_ << 13; rs_ ^= rs_ >> 7; rs_ ^= rs_ << 17; return rs_; }
@@ -131,15 +133,36 @@ static std::vector<size_t> jarr(const std::string& j, const char* key) {
     return r;
 }
 static size_t jnum(const std::string& j, const char* key) { auto p = j.find(std::string("\"") + key + "\""); if (p == std::string::npos) return 0; p = j.find(':', p); return strtoull(j.c_str() + p + 1, 0, 10); }
+// a 0-element view whose descriptor pointer is null (a default-constructed iovector_view): every copy moves 0 bytes
+static bool case_empty_view() {
+    fflush(stdout);
+    pid_t c = fork();
+    if (c == 0) {
+        iovector_view e, e2; char b[8] = {1, 2, 3, 4, 5, 6, 7, 8}; iovec one{b, 8}; iovector_view full(&one, 1);
+        int bad = 0;
+        if (e.memcpy_to(b, 8) != 0) bad = 1;
+        if (e.memcpy_from(b, 8) != 0) bad = 1;
+        if (e.memcpy_to(&full, 8) != 0) bad = 1;
+        if (full.memcpy_to(&e2, 8) != 0) bad = 1;
+        if (e.sum() != 0) bad = 1;
+        _exit(bad ? 3 : 0);
+    }
+    int st = 0; waitpid(c, &st, 0);
+    if (WIFSIGNALED(st)) { why = "memcpy_to / memcpy_from on a default-constructed (0-element, null) iovector_view died with signal " + std::to_string(WTERMSIG(st)); return false; }
+    if (WEXITSTATUS(st) != 0) { why = "a copy to or from a 0-element view did not return 0"; return false; }
+    return true;
+}
 int main(int argc, char** argv) {
     log_output = log_output_null;
     if (argc >= 3 && !strcmp(argv[1], "--replay")) {
         std::ifstream f(argv[2]); std::stringstream ss; ss << f.rdbuf(); std::string j = ss.str();
+        if (j.find("empty_view") != std::string::npos || j.find("iov_iterator") != std::string::npos) { bool ok = case_empty_view(); printf("%s %s\n", ok ? "NOT-REPRODUCED" : "REPRODUCED", why.c_str()); return 0; }
         bool ok = run_case((int)jnum(j, "op"), jarr(j, "lens"), jnum(j, "a"), jnum(j, "b"), jarr(j, "lens2"));
         printf("%s %s\n", ok ? "NOT-REPRODUCED" : "REPRODUCED", why.c_str()); return 0;
     }
     uint64_t N = argc > 1 ? strtoull(argv[1], 0, 10) : 200000, cases = 0;
     const char* sd = getenv("VERIF_SEED"); rs_ = 0x9E3779B97F4A7C15ull ^ (sd ? strtoull(sd, 0, 10) * 0x100000001B3ull : 1);
+    ++cases; if (!case_empty_view()) { printf("CEX empty_view {\"kind\": \"empty_view\", \"why\": \"%s\"}\n", why.c_str()); return 3; }
     for (uint64_t k = 0; k < N; ++k) {
         int op = rnd() % 17; int n = rnd() % 7; int n2 = rnd() % 5;
         std::vector<size_t> lens, lens2; size_t T = 0;
